@@ -225,6 +225,7 @@ class Rig:
 
             def fd_write(fd, data):
                 data = bytes(data)
+                f = rig.conns[0]          # the file object currently behind the File component (see op 'o')
                 o = f.outcome if f.outcome is not None else ['a', BIG]
                 if f.closed:
                     rig.log.append((0, 'send', data, -errno.EBADF, True))
@@ -280,6 +281,12 @@ class Rig:
             if self.poller.isWriting(s):
                 s.outcome = o[1]
                 self.m.fire(poll_write(s), self.target(s))
+        elif k == 'o':      # File only: open another file object on the same component (File._on_open takes one)
+            if self.kind != 'file':
+                raise ValueError('re-open exists for File only')
+            self.generation = getattr(self, 'generation', 0) + 1
+            self.conns[0] = FakeFile(self.log, 0)
+            self.m.fire(io_file._open(self.conns[0]), 'ep')
         else:
             raise ValueError(k)
         self.drain()
@@ -376,6 +383,8 @@ def op_conns(o, nconn, server):
     """connections an op addresses"""
     if o[0] == 'C':
         return list(range(nconn))
+    if o[0] == 'o':
+        return [0]
     return [o[2] if (server and len(o) > 2 and o[2] is not None) else 0]
 
 
@@ -482,12 +491,15 @@ class C11(Prop):
                     'python oracle in harness/c11.py']
     assumptions = ['errno numbers are the Linux ones (EINTR 4, EAGAIN=EWOULDBLOCK 11, EPIPE 32, ENOBUFS 105, ENOTCONN 107); asserted at import',
                    'the poller delivers `_write(sock)` only for descriptors with writer interest (C10) and the kernel refuses writes to a closed descriptor',
-                   'TLS write path (SSLError WANT_WRITE), UDP endpoints, str payloads of File are not modelled',
-                   'the model stops at the close: after the descriptor was closed only "no byte is accepted" is compared']
+                   'TLS write path (SSLWantWriteError/SSLWantReadError instead of EAGAIN), UDP endpoints, File encodings other than UTF-8 are not modelled',
+                   'accept() never hands out the same socket object twice (NoDup hypothesis of the server theorems)',
+                   're-opening a File on another file object is outside the model (judged by the oracle only); '
+                   'open finding C11-file-late-write until fixes/C11_file_late_write.patch is applied']
 
     def __init__(self):
         self.stats = {'kinds': {}, 'ops': {}, 'outcomes': {}, 'payload_sizes': {}, 'payload_types': {}, 'close_positions': {},
-                      'fatal_cases': 0, 'two_conn_cases': 0, 'max_payload': 0}
+                      'fatal_cases': 0, 'two_conn_cases': 0, 'max_payload': 0, 'reopen_cases': 0,
+                      'observed': {}}
 
     # ---- generator
     def _payload(self, rng, ctr, big=False):
@@ -552,7 +564,7 @@ class C11(Prop):
                         cuts += [off, off + 1, off + n - 1, off + n]
                     off += n
         faulty = rng.random() < 0.75
-        fatal = rng.random() < 0.3
+        fatal = rng.random() < 0.5
 
         def outcome():
             r = rng.random()
@@ -563,9 +575,41 @@ class C11(Prop):
             if r < 0.75:
                 L = rng.choice(lens)
                 return ['a', max(0, rng.choice([0, 1, L - 1, L, L + 1, L // 2, rng.randint(0, L + 1)]))]
-            if fatal and r > 0.88:
+            if fatal and r > 0.84:
                 return ['e', rng.choice(FATAL)]
             return ['e', rng.choice([errno.EAGAIN, errno.EWOULDBLOCK, errno.EINTR, errno.ENOBUFS])]
+
+        def hard_outcome():      # for the ticks that follow a close requested while data is buffered
+            r = rng.random()
+            if r < 0.45:
+                return ['e', rng.choice([errno.EAGAIN, errno.EWOULDBLOCK, errno.EINTR, errno.ENOBUFS])]
+            if r < 0.75:
+                L = rng.choice(lens)
+                return ['a', rng.choice(cuts) if cuts and rng.random() < 0.5 else
+                        max(0, rng.choice([0, 1, L - 1, L // 2, rng.randint(0, L)]))]
+            if fatal and r < 0.87:
+                return ['e', rng.choice(FATAL)]
+            return ['a', BIG]
+
+        if wops and not big and rng.random() < 0.3:
+            # combination stream: writes back to back, close requested while they are buffered, then refusals,
+            # partial accepts (and possibly a fatal error) while the close is pending, possibly one more write
+            ops = []
+            for o in wops:
+                if rng.random() < 0.2:
+                    ops.append(['t', hard_outcome(), conn])
+                ops.append(o)
+            ops.append(['c', None, conn])
+            for _ in range(rng.randint(2, 5)):
+                ops.append(['t', hard_outcome(), conn])
+            if rng.random() < 0.35:
+                ops.insert(rng.randint(len(wops) + 1, len(ops)), self._write_op(rng, ctr, conn, kind))
+            if rng.random() < 0.3:
+                ops.insert(rng.randint(len(wops) + 1, len(ops)), ['c', None, conn])
+            if rng.random() < 0.8:
+                nwr = len([o for o in ops if is_write(o)])
+                ops += [['t', ['a', BIG], conn] for _ in range(nwr + 1)]
+            return ops
 
         ops = []
         for o in wops:
@@ -614,6 +658,14 @@ class C11(Prop):
                 cl = [j for j, o in enumerate(ops) if o[0] == 'c']
                 if cl:
                     ops[rng.choice(cl)] = ['C', None, None]
+            if kind == 'file' and not big and rng.random() < 0.08:
+                # close for sure (drain, then close), operations on the closed File, another file object, a new stream
+                nwr = len([o for o in ops if is_write(o)])
+                ops += [['t', ['a', BIG], 0] for _ in range(nwr + 1)] + [['c', None, 0]]
+                for _ in range(rng.randint(1, 3)):
+                    ops.append(rng.choice([self._write_op(rng, ctr, 0, kind), ['c', None, 0], ['t', ['a', BIG], 0]]))
+                ops.append(['o', None, 0])
+                ops += self._stream(rng, ctr, 0, False, kind)
             cases.append({'kind': kind, 'nconn': nconn, 'ops': ops})
         for c in cases:
             self._count(c)
@@ -624,6 +676,8 @@ class C11(Prop):
         st['kinds'][c['kind']] = st['kinds'].get(c['kind'], 0) + 1
         if c.get('nconn', 1) > 1:
             st['two_conn_cases'] += 1
+        if any(o[0] == 'o' for o in c['ops']):
+            st['reopen_cases'] += 1
         fatal = False
         nops = len(c['ops'])
         for j, o in enumerate(c['ops']):
@@ -659,11 +713,53 @@ class C11(Prop):
         # read: after a rename the observable degrades instead of raising an alarm
         if any(r['int'] is None for r in obs['recs']):
             c['_noint'] = True
+        self._observe(c, obs)
         # open finding C11-file-bytes-like: while File raises on bytearray/memoryview payloads the model (which treats
         # every bytes-like payload as its bytes) is not compared on those cases
         if self._bytes_like_defect(c, obs):
             c['_nomodel'] = True
+        # open finding C11-file-late-write: while a closed File keeps late payloads / close requests / writer interest
+        # the model (which has the repaired behaviour: no state after the close) is not compared on those cases
+        if self._late_state_defect(c, obs):
+            c['_nomodel'] = True
         return obs
+
+    @staticmethod
+    def _late_state_defect(c, obs):
+        if c['kind'] != 'file' or not isinstance(obs, dict) or 'recs' not in obs:
+            return False
+        return any(r['was_closed'] and c['ops'][r['op']][0] != 'o' and
+                   (r['writing'] or r['exc'] or (r['int'] and (r['int'][0] or r['int'][1])))
+                   for r in obs['recs'])
+
+    def _observe(self, c, obs):
+        """measured on the implementation's run: how often the interesting combinations really happened"""
+        seen = set()
+        pending = {}
+        for r in obs['recs']:
+            was_pending = pending.get(r['conn'], False)
+            for runs, res, after in r['sends']:
+                if res >= 0:
+                    full = res >= sum(n for _, n in runs)
+                    seen.add('send-full' if full else 'send-partial')
+                    if was_pending:
+                        seen.add('close-pending+' + ('full-send' if full else 'partial-send'))
+                elif -res in TRANSIENT:
+                    seen.add('transient-refusal')
+                    if was_pending:
+                        seen.add('close-pending+transient-refusal')
+                else:
+                    seen.add('fatal-error')
+                    if was_pending:
+                        seen.add('close-pending+fatal-error')
+            if r['was_closed']:
+                seen.add('op-after-close:' + c['ops'][r['op']][0])
+            if r['sockclose'] and was_pending:
+                seen.add('deferred-close-took-effect')
+            pending[r['conn']] = bool(r['int'] and r['int'][1])
+        ob = self.stats['observed']
+        for k in seen:
+            ob[k] = ob.get(k, 0) + 1
 
     @staticmethod
     def _bytes_like_defect(c, obs):
@@ -683,11 +779,19 @@ class C11(Prop):
             return None
         nconn, server = self._conns(c)
         parts = []
-        for conn in range(nconn):
-            ops = [o for o in c['ops'] if conn in op_conns(o, nconn, server)]
-            parts.append('obs_run %s %s [%s]' % (MODEL_KIND[c['kind']], 'false' if c.get('_noint') else 'true',
-                                                 '; '.join(coq_op(o) for o in ops)))
-        return 'Tl [%s]' % '; '.join(parts)
+        if any(o[0] == 'o' for o in c['ops']):
+            return None          # re-opening a File is outside the model; the oracle judges those cases
+        withint = 'false' if c.get('_noint') else 'true'
+        if server:
+            # the Server with its tables (_clients, _buffers, _closeq, poller writers): all connections in one run
+            mops = []
+            for o in c['ops']:
+                if o[0] == 'C':
+                    mops.append('CloseAll')
+                else:
+                    mops.append('On %d%%nat (%s)' % (op_conns(o, nconn, server)[0], coq_op(o)))
+            return 'obs_mrun %s [%s]%%nat [%s]' % (withint, ';'.join(str(i) for i in range(nconn)), '; '.join(mops))
+        return 'Tl [obs_run %s %s [%s]]' % (MODEL_KIND[c['kind']], withint, '; '.join(coq_op(o) for o in c['ops']))
 
     def obs_for_model(self, c, obs):
         if isinstance(obs, dict) and '__crash__' in obs:
@@ -700,15 +804,11 @@ class C11(Prop):
             for r in obs['recs']:
                 if r['conn'] != conn:
                     continue
-                if r['was_closed']:
-                    # the model stops at the close: afterwards only "no byte is accepted" is compared
-                    sends = [[pack(s[0]), s[1]] for s in r['sends'] if s[1] >= 0]
-                    rs.append([sends, 2, 0])
-                else:
-                    sends = [[pack(s[0]), s[1]] for s in r['sends']]
-                    flags = (16 * r['sockclose'] + 8 * r['error'] + 4 * r['disc'] + 2 * r['closed'] + 1 * r['writing']
-                             + (32 * r['int'][1] if withint else 0))
-                    rs.append([sends, flags, sum(n for _, n in r['int'][0]) if withint else 0])
+                # also after the close every send call (refused ones too), event, writer interest and table entry counts
+                sends = [[pack(s[0]), s[1]] for s in r['sends']]
+                flags = (16 * r['sockclose'] + 8 * r['error'] + 4 * r['disc'] + 2 * r['closed'] + 1 * r['writing']
+                         + (32 * r['int'][1] if withint else 0))
+                rs.append([sends, flags, sum(n for _, n in r['int'][0]) if withint else 0])
             out.append(rs)
         return out
 
@@ -730,6 +830,21 @@ class C11(Prop):
         for r in obs['recs']:
             if r['other']:
                 return 'an operation on one connection touched another one: %s' % r['other'][0]
+        # a File may be given another file object ('o'): each file object is a stream endpoint of its own, and what
+        # was written while the previous one was closed must never reach the next one
+        segs = [[]]
+        for j in mine:
+            if ops[j][0] == 'o':
+                segs.append([])
+            else:
+                segs[-1].append(j)
+        for k, seg in enumerate(segs):
+            w = self._oracle_segment(ops, recs, seg)
+            if w:
+                return ('after re-open: ' if k else '') + w
+        return None
+
+    def _oracle_segment(self, ops, recs, mine):
         w_all = b''.join(op_bytes(ops[j]) for j in mine if is_write(ops[j]))
         acc = 0                 # number of bytes the OS accepted so far
         w_open = 0              # number of bytes written while the descriptor was open
@@ -788,6 +903,10 @@ class C11(Prop):
         # C11-file-bytes-like: File, a bytearray/memoryview payload, and a handler of the endpoint raised before the close
         if self._bytes_like_defect(c, obs) and 'a handler of the endpoint raised' in (what or ''):
             return 'C11-file-bytes-like'
+        # C11-file-late-write: File, something was kept for the closed file, and the complaint is about what the next
+        # file object was handed / did
+        if self._late_state_defect(c, obs) and (what or '').startswith('after re-open: '):
+            return 'C11-file-late-write'
         return None
 
     def nontrivial(self, c, obs):
